@@ -65,6 +65,18 @@ def replay_state(args):
                     check_extent(t, xmin[k], xmax[k], op)
             except Exception as ex:
                 bad.append(("C06.no-error", dict(op=op, exc=type(ex).__name__, cls="interior", **where0), None, repr(ex)[:200], None))
+        # the same targets with captures expressed in other units (adaptation scaled by c, targets by c):
+        # the solution polytope, hence every extent, is unchanged
+        Kmat = np.asarray(s["Kn"], float) / s["DK"]
+        for cscale in (1e-4, 1e3):
+            try:
+                xmin, xmax = dreye.range_of_solutions(B * cscale, A, lb, ub, K=Kmat * cscale, baseline=bl)
+                for k, t in enumerate(interior):
+                    lo, hi = _exp(s, t)
+                    if np.max(np.abs(xmin[k] - lo)) > 1e-7 or np.max(np.abs(xmax[k] - hi)) > 1e-7:
+                        bad.append(("C06.extent", dict(op="range_of_solutions", cls="interior", capture_units=cscale, **where0), [lo.tolist(), hi.tolist()], [xmin[k].tolist(), xmax[k].tolist()], t))
+            except Exception as ex:
+                bad.append(("C06.no-error", dict(op="range_of_solutions", exc=type(ex).__name__, cls="interior", capture_units=cscale, **where0), None, repr(ex)[:200], None))
         # spaced solutions
         for n in ns:
             for k, t in enumerate(interior[:: max(1, len(interior) // 4)]):
